@@ -571,12 +571,21 @@ Definition tags_ok_body (c : cfg) (fs : list frame) (k : nat) (ps : list ptag) :
   | [] => false
   end.
 
-Lemma tags_ok_nonempty c fs k ps : fs <> [] -> tags_ok c fs k ps = tags_ok_body c fs k ps.
-Proof. destruct fs; [congruence|reflexivity]. Qed.
+Lemma tags_ok_nonempty c fs k ps :
+  fs <> [] -> sets_known c = true -> tags_ok c fs k ps = tags_ok_body c fs k ps.
+Proof. intros NE K. destruct fs; [congruence|]. unfold tags_ok. rewrite K. reflexivity. Qed.
+
+Lemma cfg_sets_known c : cfg_wf c = true -> sets_known c = true.
+Proof.
+  unfold cfg_wf. intros H.
+  repeat match type of H with (_ && _) = true => let H' := fresh "W" in apply andb_true_iff in H as [H H'] end.
+  assumption.
+Qed.
 
 Lemma mux_nonempty c fs v :
-  fs <> [] -> vseq_tag c = Some v -> mux c fs = mux_config c ++ map (media_tag c) (live_frames c fs).
-Proof. intros NE V. destruct fs; [congruence|]. unfold mux. rewrite V. now rewrite mux_frames_live. Qed.
+  fs <> [] -> sets_known c = true -> vseq_tag c = Some v ->
+  mux c fs = mux_config c ++ map (media_tag c) (live_frames c fs).
+Proof. intros NE K V. destruct fs; [congruence|]. unfold mux. rewrite K, V. now rewrite mux_frames_live. Qed.
 
 Lemma mux_config_filters c v :
   cfg_wf c = true -> vseq_tag c = Some v ->
@@ -604,7 +613,7 @@ Proof.
     pose proof (live_all c fs k F) as LA. fold live in LA.
     assert (MW := forallb_media_wf c live LA).
     assert (MO := media_run_init c live LA S).
-    unfold join_tags. rewrite (mux_nonempty c fs v NE V).
+    unfold join_tags. rewrite (mux_nonempty c fs v NE (cfg_sets_known c C) V).
     destruct (mux_config_filters c v C V) as [MF1 MF2].
     rewrite !filter_app, filter_media_config, filter_media_media, app_nil_r, MF1, MF2. cbn [app].
     rewrite skipn_map. fold live.
@@ -613,7 +622,7 @@ Proof.
     destruct (c_aac c) eqn:AAC.
     + rewrite parse_flv_write.
       * rewrite Z.eqb_refl. cbn [andb].
-        rewrite tags_ok_nonempty by assumption. unfold tags_ok_body. fold live. rewrite VD, AAC.
+        rewrite tags_ok_nonempty by (assumption || now apply cfg_sets_known). unfold tags_ok_body. fold live. rewrite VD, AAC.
         rewrite written_configs by (cbn [forallb]; now rewrite meta_tag_config, Vc, Ac).
         cbn [map app].
         unfold as_config at 1. change (t_type (meta_tag c)) with 18.
@@ -626,7 +635,7 @@ Proof.
         reflexivity.
     + rewrite parse_flv_write.
       * rewrite Z.eqb_refl. cbn [andb].
-        rewrite tags_ok_nonempty by assumption. unfold tags_ok_body. fold live. rewrite VD, AAC.
+        rewrite tags_ok_nonempty by (assumption || now apply cfg_sets_known). unfold tags_ok_body. fold live. rewrite VD, AAC.
         rewrite written_configs by (cbn [forallb]; now rewrite meta_tag_config, Vc).
         cbn [map app].
         unfold as_config at 1. change (t_type (meta_tag c)) with 18.
@@ -790,7 +799,7 @@ Proof.
   assert (VD : vseq_dies c = false) by (unfold vseq_dies; now rewrite V).
   unfold flv_ok in OK. destruct (parse_flv (flv_bytes c fs k t0)) as [[fl ps]|]; [|discriminate].
   apply andb_true_iff in OK as [FL T]. apply Z.eqb_eq in FL. subst fl.
-  rewrite tags_ok_nonempty in T by assumption. unfold tags_ok_body in T. rewrite VD in T.
+  rewrite tags_ok_nonempty in T by (assumption || now apply cfg_sets_known). unfold tags_ok_body in T. rewrite VD in T.
   destruct ps as [|m [|v rest]]; try discriminate.
   { apply andb_true_iff in T as [_ T]. discriminate. }
   apply andb_true_iff in T as [M T]. apply andb_true_iff in T as [Vo T].
